@@ -118,7 +118,15 @@ pub fn add_plan(rng: &mut Rng, profile: &str, tree: &Tree, inv: &mut Inv, oracle
     if rng.chance(0.35) {
         return;
     }
-    if matches!(&inv.shape, Shape::FormatAll { dir: None, .. }) && rng.chance(0.12) {
+    if rng.chance(0.06) {
+        // no new threads for this process (address-space limit, RLIMIT_NPROC, pids cgroup)
+        inv.plan.push(Rule::new("thread", "*", 1, "EAGAIN"));
+    }
+    if inv.stdin.is_some() && rng.chance(0.1) {
+        // the writer of a non-blocking stdin stalls: some reads answer EAGAIN, then data flows again
+        inv.plan.push(Rule::new("eagain_read", "@0", rng.range(1, 3), rng.range(1, 12)));
+    }
+    if rng.chance(0.02) || (matches!(&inv.shape, Shape::FormatAll { dir: None, .. }) && rng.chance(0.12)) {
         // the current directory was deleted under the process
         inv.plan.push(Rule::new("getcwd", "*", 1, *rng.pick(&["ENOENT", "ENOENT", "EACCES", "ESTALE"])));
     }
